@@ -1,15 +1,18 @@
 package c12
 
 import (
+	"bytes"
 	"context"
 	"fmt"
 	"math/rand"
+	"os"
+	"os/exec"
+	"regexp"
 	"strings"
 	"testing"
 	"time"
 
 	"github.com/aptpod/iscp-go/message"
-	"github.com/aptpod/iscp-go/wire"
 
 	"verif/harness/vrun"
 )
@@ -484,81 +487,140 @@ func runRouted(c *vrun.Case, sc wireScenario, w *wireEnv, ctx context.Context, i
 	return nil
 }
 
-// ---- frames colliding with the keepalive ping: a failure kills the process, hence a workload of its own
+// ---- frames colliding with the keepalive ping: a failure kills the process, hence a workload of its own whose cases each
+// run the scenario in a child process (this test binary re-executed with TestC12KeepaliveChild) and observe whether it dies.
 
-var keepaliveTypes = []string{"UpstreamOpenResponse", "ConnectResponse", "UpstreamMetadataAck", "DownstreamCloseResponse", "UpstreamOpenRequest", "Pong",
-	"DownstreamOpenResponse", "UpstreamResumeResponse", "ConnectRequest"}
+var keepaliveTypes = func() []string {
+	res := []string{"Pong"} // control
+	for _, t := range allMessageTypes {
+		if isRequest(t) && t != "Pong" {
+			res = append(res, t)
+		}
+	}
+	return res
+}()
+
+// keepaliveScenario: on an established connection the peer answers the third keepalive Ping with a frame of type ty
+// carrying the ping's id, then with the proper Pong. Returns the outcome or "" + note when nothing could be observed.
+func keepaliveScenario(ty string, e enc) (outcome, note string) {
+	w, err := dial(e, 50*time.Millisecond, 5*time.Second, nil)
+	if err != nil {
+		return "", "could not establish the connection: " + err.Error()
+	}
+	defer w.close()
+	collided := make(chan uint32, 1)
+	seen := 0
+	w.br.setIntercept(func(m message.Message) ([][]byte, bool) {
+		p, ok := m.(*message.Ping)
+		if !ok {
+			return nil, false
+		}
+		seen++
+		if seen != 3 {
+			return nil, false
+		}
+		fm, _ := frameOf(ty, uint32(p.RequestID))
+		collided <- uint32(p.RequestID)
+		return [][]byte{w.br.encode(fm), w.br.encode(&message.Pong{RequestID: p.RequestID})}, true
+	})
+	var id uint32
+	select {
+	case id = <-collided:
+	case <-time.After(60 * time.Second):
+		return "", "the third keepalive ping did not arrive within 60 s"
+	}
+	// a process death happens here when the keepalive goroutine type-asserts the frame
+	after := 0
+	deadline := time.After(60 * time.Second)
+	for after < 3 {
+		select {
+		case pid := <-w.br.pingSeen:
+			if pid > id {
+				after++
+			}
+		case <-w.conn.Closed():
+			return "closed", ""
+		case <-deadline:
+			return "", "neither further pings nor a close within 60 s after the colliding frame"
+		}
+	}
+	return "kept-pinging", ""
+}
+
+// TestC12KeepaliveChild is the child side; it does nothing unless the parent case set C12_KEEPALIVE_TYPE.
+func TestC12KeepaliveChild(t *testing.T) {
+	ty := os.Getenv("C12_KEEPALIVE_TYPE")
+	if ty == "" {
+		t.Skip("child of TestC12WireKeepalive")
+	}
+	outcome, note := keepaliveScenario(ty, encByName(os.Getenv("C12_KEEPALIVE_ENC")))
+	fmt.Printf("C12CHILD outcome=%q note=%q\n", outcome, note)
+}
+
+var reChild = regexp.MustCompile(`C12CHILD outcome="([^"]*)" note="([^"]*)"`)
 
 func TestC12WireKeepalive(t *testing.T) {
-	env := vrun.LoadEnv()
 	mustSeeds(t)
-	total := env.Pick(4, 9)
-	meta := vrun.Meta{Property: "C12", Workload: "TestC12WireKeepalive", Total: total,
-		Rule:        "case i: on an established connection the peer answers the third keepalive Ping with a well-formed frame of type keepaliveTypes[i] carrying the ping's request id, then with the proper Pong (type Pong itself is the control). The connection must go on pinging or close; a panic here is in a library goroutine and kills the process (the runner reports the crashed child). Non-trivial: the colliding frame was written while the ping was outstanding and a later ping or the closed notification was observed; distinct: frame type.",
+	total := 2 * len(keepaliveTypes)
+	meta := vrun.Meta{Property: "C12", Workload: "TestC12WireKeepalive", Total: total, Exhaustive: true,
+		Rule:        fmt.Sprintf("every request-routed message type (%d, Pong being the control) x both encodings: in a child process, on an established connection the peer answers the third keepalive Ping with a well-formed frame of that type carrying the ping's request id, then with the proper Pong. The connection must go on pinging or close; the case observes whether the child process survives (a panic in the library's keepalive goroutine kills it; the child's stderr is the witness). Non-trivial: the colliding frame was written while the ping was outstanding and the child reported further pings or the close; distinct: (type, encoding). Exhaustive over the finite set of message types, not over frame contents.", len(keepaliveTypes)),
 		Assumptions: wireAssumptions}
-	vrun.Loop(t, meta, 1, func(c *vrun.Case) vrun.Result {
-		ty := keepaliveTypes[c.Index%len(keepaliveTypes)]
+	vrun.Loop(t, meta, 0, func(c *vrun.Case) vrun.Result {
+		ty := keepaliveTypes[c.Index/2]
 		e := encs[c.Index%2]
 		desc := map[string]any{"frame_type": ty, "encoding": e.name}
-		w, err := dial(e, 50*time.Millisecond, 5*time.Second, nil)
-		if err != nil {
-			r := vrun.Inconcl("could not establish the connection: " + err.Error())
+		cmd := exec.Command(os.Args[0], "-test.run=^TestC12KeepaliveChild$", "-test.timeout=0", "-test.v")
+		cmd.Env = append(os.Environ(), "C12_KEEPALIVE_TYPE="+ty, "C12_KEEPALIVE_ENC="+e.name)
+		var out bytes.Buffer
+		cmd.Stdout, cmd.Stderr = &out, &out
+		if err := cmd.Start(); err != nil {
+			r := vrun.Inconcl("could not start the child: " + err.Error())
 			r.Desc = desc
 			return r
 		}
-		defer w.close()
-		collided := make(chan uint32, 1)
-		seen := 0
-		w.br.setIntercept(func(m message.Message) ([][]byte, bool) {
-			p, ok := m.(*message.Ping)
-			if !ok {
-				return nil, false
-			}
-			seen++
-			if seen != 3 {
-				return nil, false
-			}
-			fm, _ := frameOf(ty, uint32(p.RequestID))
-			collided <- uint32(p.RequestID)
-			return [][]byte{w.br.encode(fm), w.br.encode(&message.Pong{RequestID: p.RequestID})}, true
-		})
-		var id uint32
+		waitErr := make(chan error, 1)
+		go func() { waitErr <- cmd.Wait() }()
+		var err error
 		select {
-		case id = <-collided:
-		case <-time.After(60 * time.Second):
-			r := vrun.Inconcl("the third keepalive ping did not arrive within 60 s")
+		case err = <-waitErr:
+		case <-time.After(5 * time.Minute):
+			_ = cmd.Process.Kill()
+			r := vrun.Inconcl("the child did not finish within 5 min")
 			r.Desc = desc
 			return r
 		}
-		// a process death happens here when the keepalive goroutine type-asserts the frame
-		after := 0
-		deadline := time.After(60 * time.Second)
-		for after < 3 {
-			select {
-			case pid := <-w.br.pingSeen:
-				if pid > id {
-					after++
-				}
-			case <-w.conn.Closed():
-				after = 99
-			case <-deadline:
-				r := vrun.Inconcl("neither further pings nor a close within 60 s after the colliding frame")
+		txt := out.String()
+		if m := reChild.FindStringSubmatch(txt); m != nil && err == nil {
+			if m[1] == "" {
+				r := vrun.Inconcl(m[2])
 				r.Desc = desc
 				return r
 			}
+			desc["outcome"] = m[1]
+			r := vrun.Hold("keepalive|"+ty+"|"+e.name, true)
+			r.Desc = desc
+			r.Stat("wire_keepalive_collisions_survived", 1)
+			r.AddSet("wire_keepalive_frame_types", ty+"=>"+m[1])
+			return r
 		}
-		outcome := "kept-pinging"
-		if after == 99 {
-			outcome = "closed"
+		// the child died
+		kind := ""
+		for _, ln := range strings.Split(txt, "\n") {
+			if strings.HasPrefix(ln, "panic: ") || strings.HasPrefix(ln, "fatal error: ") {
+				kind = ln
+				break
+			}
 		}
-		desc["ping_id"] = id
-		desc["outcome"] = outcome
-		r := vrun.Hold("keepalive|"+ty, true)
+		site := vrun.PanicSite(txt)
+		if kind == "" || site == "unknown" {
+			r := vrun.Inconcl(fmt.Sprintf("the child ended abnormally (%v) without a library frame in a panic trace: %s", err, clip(txt, 1500)))
+			r.Desc = desc
+			return r
+		}
+		r := vrun.Violation("a well-formed frame of another message type carrying the id of the outstanding keepalive Ping panics in the library's keepalive goroutine and kills the process",
+			"crash:wire:keepalive-reply-of-another-type:"+site,
+			map[string]any{"frame_type": ty, "encoding": e.name, "child_exit": fmt.Sprint(err), "crash": kind, "child_output": clip(txt, 4000)})
 		r.Desc = desc
-		r.Stat("wire_keepalive_collisions_survived", 1)
-		r.AddSet("wire_keepalive_frame_types", ty+"=>"+outcome)
 		return r
 	})
 }
-
-var _ = wire.Connect
